@@ -30,7 +30,12 @@ RULE = ("trajectories: nsamples 1..6 x nspecies 1..4 x (grid w,h,d 1..3 | graph 
         "trajectories a refused `system.space = <space with an undefined environment>` precedes the accessor comparisons (on the "
         "caller's system before construction, or on trajectory.system); object re-use: after the queries the caller assigns "
         "another space (transposed / larger) and a network with reversed species order to the system object it had passed to "
-        "RDTrajectory and up to 16 accessor calls are repeated (results must not change).  A case is non-trivial when the trajectory has "
+        "RDTrajectory and up to 16 accessor calls are repeated (results must not change); edit-then-reread histories on a quarter of "
+        "the constructed trajectories: the trajectory is rebuilt, (80 %) read once through every accessor, then its arrays are edited "
+        "through the public UnitArray interface (data.value = list / ndarray / value - k, data.set_value with and without check, "
+        "in-place value[:] = / value -= k / value[i] = / data.set_at, t.value = / t.set_value with other sample times, data.units = "
+        "another quantity unit) on the trajectory itself, on a copy.deepcopy of it, or on a deep copy while the ORIGINAL is "
+        "re-inspected; the full query list is then judged against the content the arrays hold after the edit.  A case is non-trivial when the trajectory has "
         ">1 of the dimension being indexed (or, for lookups, when the query is not outside the sampled range); distinct by "
         "(shape, kind, query)")
 ASSUMPTIONS = [
@@ -193,6 +198,138 @@ def refused_space_assignment(ctx, target, kind, shape):
         return True
 
 
+# ---- edit-then-reread histories --------------------------------------------------------------------------------------------
+# "For any trajectory" includes a trajectory whose arrays were edited through their public interface after it had been read
+# (background subtraction, re-labelling of the units, shifted time origin), and a deep copy of such a trajectory: every accessor
+# must read the arrays the trajectory holds NOW (direct indexing of `traj.data.value` is one of the readings the statement names).
+WHOLE_ROUTES = ["value=list", "value=ndarray", "set_value", "set_value(check=False)", "value=value-k", "value[:]=", "value-=k"]
+ITEM_ROUTES = ["set_at", "value[i]="]
+OTHER_ROUTES = ["t.value=", "t.set_value", "data.units="]
+
+
+def pre_read(traj):
+    """every accessor once, as a user who looks at a trajectory before editing it"""
+    for f in (lambda: traj.get_trajectory(0, 0), lambda: traj.get_trajectory(0, merge=True), lambda: traj.get_state(0, 0),
+              lambda: traj.get_state(None, 0), lambda: traj.get_trajectory_point(0, 0, 0),
+              lambda: traj.get_sample_index(0.0, "closest"), lambda: traj.get_sample_index(0.0, "infeq"),
+              lambda: traj.get_sample_index(0.0, "supeq")):
+        call(f)
+
+
+def apply_edit(t, h, new_data, new_ts, new_dsys):
+    """one edit of trajectory `t` through the public interface of its UnitArrays"""
+    from strengths import UnitValue
+    from strengths.units import Units, UnitsSystem, UnitsDimensions
+    route = h["route"]
+    if route == "value=list":
+        t.data.value = [float(v) for v in new_data]
+    elif route == "value=ndarray":
+        t.data.value = np.array(new_data, dtype=float)
+    elif route == "set_value":
+        t.data.set_value([float(v) for v in new_data])
+    elif route == "set_value(check=False)":
+        t.data.set_value(np.array(new_data, dtype=float), check=False)
+    elif route == "value=value-k":
+        t.data.value = t.data.value - h["k"]
+    elif route == "value[:]=":
+        t.data.value[:] = new_data
+    elif route == "value-=k":
+        a = t.data.value
+        a -= h["k"]
+    elif route == "set_at":
+        for i, v in h["items"]:
+            t.data.set_at(i, UnitValue(v, t.data.units.copy()))
+    elif route == "value[i]=":
+        for i, v in h["items"]:
+            t.data.value[i] = v
+    elif route == "t.value=":
+        t.t.value = [float(x) for x in new_ts]
+    elif route == "t.set_value":
+        t.t.set_value(np.array([float(x) for x in new_ts]), check=False)
+    elif route == "data.units=":
+        t.data.units = Units(UnitsSystem(*new_dsys), UnitsDimensions(0, 0, 1))
+    else:
+        raise ValueError("unknown edit route %r" % (route,))
+
+
+def apply_history(traj, cj):
+    """the object under test after the recorded history: `cj` holds the content EXPECTED afterwards (data / ts / dsys) and
+    `cj['history']` the content at construction, whether the accessors were called before the edit, the edit, and which object
+    is then looked at (the edited trajectory, an edited deep copy, or the original of an edited deep copy)"""
+    import copy
+    h = cj["history"]
+    if h.get("pre_read"):
+        pre_read(traj)
+    new_ts = [Fraction(x) for x in (h.get("edit_ts") or cj["ts"])]
+    new_data = h.get("edit_data") or cj["data"]
+    new_dsys = h.get("edit_dsys") or cj["dsys"]
+    if h["on"] == "self":
+        apply_edit(traj, h, new_data, new_ts, new_dsys)
+        return traj
+    other = copy.deepcopy(traj)
+    if h.get("pre_read_copy"):
+        pre_read(other)
+    apply_edit(other, h, new_data, new_ts, new_dsys)
+    return other if h["on"] == "deepcopy" else traj
+
+
+def derive_edited_cases(ctx, rng, c):
+    """from one constructed trajectory: the same trajectory rebuilt, read, edited through the public interface of its arrays (or
+    deep-copied and the copy edited) -> new case(s) whose known content is the content after the edit"""
+    N, ns, nc = c["N"], c["ns"], c["nc"]
+    data0 = list(c["data"])
+    size = len(data0)
+    r = rng.random()
+    route = rng.choice(WHOLE_ROUTES) if r < 0.5 else rng.choice(ITEM_ROUTES) if r < 0.75 else rng.choice(OTHER_ROUTES)
+    on = rng.choice(["self", "self", "deepcopy", "both"])
+    h = {"route": route, "pre_read": rng.random() < 0.8, "pre_read_copy": rng.random() < 0.3, "data0": data0,
+         "ts0": [rstr(t) for t in c["ts"]], "dsys0": list(c["dsys"])}
+    data, ts, dsys = data0, list(c["ts"]), tuple(c["dsys"])
+    if route in ("value=value-k", "value-=k"):
+        h["k"] = float(Fraction(rng.randint(1, 400), 8))
+        data = [v - h["k"] for v in data0]
+    elif route in WHOLE_ROUTES:
+        perm = list(range(size))
+        rng.shuffle(perm)
+        data = [float(data0[perm[i]] + 1000 + Fraction(rng.randint(0, 7), 8)) for i in range(size)]
+    elif route in ITEM_ROUTES:
+        idxs = sorted(rng.sample(range(size), min(size, rng.randint(1, 4))))
+        h["items"] = [[i, float(-2000 - i - Fraction(rng.randint(0, 7), 8))] for i in idxs]
+        data = list(data0)
+        for i, v in h["items"]:
+            data[i] = v
+    elif route in ("t.value=", "t.set_value"):
+        while True:
+            ts, dup = gen_times(rng, N)
+            if ts != c["ts"]:
+                break
+    else:
+        q2 = rng.choice([q for q in QTY if q != c["dsys"][2]])
+        dsys = (rng.choice(SPACE), rng.choice(TIME), q2)
+    out = []
+    for who in (["deepcopy", "original_of_edited_deepcopy"] if on == "both" else [on]):
+        hh = dict(h, on=who)
+        c2 = dict(c, history=hh, source="constructed")
+        if who == "original_of_edited_deepcopy":
+            # the original must still read what it was built from; the edit that the copy received is recorded for the replay
+            hh.update(edit_data=data, edit_ts=[rstr(t) for t in ts], edit_dsys=list(dsys))
+        else:
+            c2.update(data=data, ts=ts, dsys=tuple(dsys), dup=any(a == b for a, b in zip(ts, ts[1:])))
+        try:
+            traj, _ts, system, _shape = rebuild(case_json(c2))
+        except Exception as e:  # noqa
+            # an edit through the public interface that the clean package performs must not raise
+            ctx.violation("raises:edit:%s" % route, "editing the trajectory's arrays through %s raised %r" % (route, e),
+                          {"traj": case_json(c2)}, impl=repr(e), expected="edit performed")
+            continue
+        c2.update(traj=traj, system=system)
+        ctx.count("history_%s" % who)
+        ctx.count("edit_route_%s" % route)
+        ctx.count("edit_after_read" if hh["pre_read"] else "edit_before_any_read")
+        out.append(c2)
+    return out
+
+
 def build_case(ctx, rng, idx):
     """one directly constructed trajectory + its query list"""
     from strengths import UnitArray, UnitValue
@@ -238,15 +375,24 @@ def case_json(c):
     """everything needed to rebuild the trajectory (replay)"""
     return {"kind": c["kind"], "shape": list(c["shape"]) if c["kind"] == "grid" else c["shape"], "ns": c["ns"],
             "data": c["data"], "ts": [rstr(t) for t in c["ts"]], "dsys": list(c["dsys"]), "tsys": list(c["tsys"]),
-            "source": c["source"], "refused_space_assignment": c.get("refused"), "labels": c.get("labels", LABELS)}
+            "source": c["source"], "refused_space_assignment": c.get("refused"), "labels": c.get("labels", LABELS),
+            "history": c.get("history")}
 
 
 def model_op(c, queries):
     space = {"kind": "grid", "shape": {"w": c["shape"][0], "h": c["shape"][1], "d": c["shape"][2]}} if c["kind"] == "grid" \
         else {"kind": "graph", "size": c["shape"]}
-    return {"op": "traj", "ns": c["ns"], "nc": c["nc"], "ts": [rstr(t) for t in c["ts"]], "tu": unitsj(c["tsys"], (0, 1, 0)),
-            "data": [rstr(v) for v in c["data"]], "du": unitsj(c["dsys"], (0, 0, 1)), "labels": c.get("labels", LABELS)[:c["ns"]],
-            "space": space, "queries": queries}
+    op = {"op": "traj", "ns": c["ns"], "nc": c["nc"], "ts": [rstr(t) for t in c["ts"]], "tu": unitsj(c["tsys"], (0, 1, 0)),
+          "data": [rstr(v) for v in c["data"]], "du": unitsj(c["dsys"], (0, 0, 1)), "labels": c.get("labels", LABELS)[:c["ns"]],
+          "space": space, "queries": queries}
+    h = c.get("history")
+    if h and h["on"] != "original_of_edited_deepcopy":
+        # the model is given the content at construction and the list of edits (Traj.setData / setTimes / setDataUnits)
+        op["data"] = [rstr(v) for v in h["data0"]]
+        op["ts"] = list(h["ts0"])
+        op["du"] = unitsj(h["dsys0"], (0, 0, 1))
+        op["edits"] = [{"data": [rstr(v) for v in c["data"]]}, {"ts": [rstr(t) for t in c["ts"]]}, {"du": unitsj(c["dsys"], (0, 0, 1))}]
+    return op
 
 
 def gen_queries(ctx, rng, c, full):
@@ -393,6 +539,8 @@ def check_trajectory(ctx, c, qs, ans):
     traj = c["traj"]
     cj = case_json(c)
     shape_key = (c["kind"], c["N"], c["ns"], c["nc"])
+    if c.get("history"):
+        shape_key = shape_key + (c["history"]["route"], c["history"]["on"], c["history"]["pre_read"])
     dunits = traj.data.units
     flat = np.asarray(traj.data.value).ravel()
     # the real data array is the known array (constructor copies, does not permute)
@@ -602,6 +750,12 @@ def run(ctx):
         if any(0 < (b - a) <= abs(b) / 10 ** 9 for a, b in zip(c["ts"], c["ts"][1:])):
             ctx.count("times_burst_relative_spacing_below_1e-9")
         cases.append(c)
+    # edit-then-reread / copy-then-edit histories on about a quarter of the constructed trajectories
+    edited = []
+    for c in list(cases):
+        if rng.random() < 0.25:
+            edited += derive_edited_cases(ctx, rng, c)
+    cases += edited
     sims = simulated_cases(ctx, rng, ctx.n(8, 40))
     for c in sims:
         ctx.count("simulated")
@@ -630,6 +784,24 @@ def run(ctx):
     ctx.extra["ambiguous_fraction"] = (amb / tot) if tot else 0.0
 
 
+def search(ctx):
+    """something about C17 no longer checks and no input failed yet: every edit route x every target x read-before / not, on fresh
+    trajectories with more than one sample, species and cell (oracle only)"""
+    rng = ctx.rng
+    tried = 0
+    for i in range(ctx.n(400, 3000)):
+        c = build_case(ctx, rng, i)
+        if c["N"] < 2 or c["ns"] < 2 or c["nc"] < 2:
+            continue
+        for c2 in derive_edited_cases(ctx, rng, c):
+            tried += 1
+            qs = gen_queries(ctx, rng, c2, full=False)
+            check_trajectory(ctx, c2, qs, None)
+        if ctx.violations or ctx.time_left() < 5:
+            break
+    ctx.extra["search_edit_histories"] = tried
+
+
 def rebuild(cj):
     """reconstruct a directly constructed trajectory from a replay record"""
     import random
@@ -642,14 +814,21 @@ def rebuild(cj):
     du = Units(UnitsSystem(*cj["dsys"]), UnitsDimensions(0, 0, 1))
     tu = Units(UnitsSystem(*cj["tsys"]), UnitsDimensions(0, 1, 0))
     ts = [Fraction(t) for t in cj["ts"]]
+    h = cj.get("history")
+    data0, ts0 = cj["data"], ts
+    if h and h["on"] != "original_of_edited_deepcopy":
+        data0, ts0 = h["data0"], [Fraction(t) for t in h["ts0"]]
+        du = Units(UnitsSystem(*h["dsys0"]), UnitsDimensions(0, 0, 1))
     class _C:
         def count(self, *a):
             pass
     if cj.get("refused_space_assignment") == "before":
         refused_space_assignment(_C(), system, cj["kind"], shape)
-    traj = RDTrajectory(data=UnitArray(cj["data"], du), t_sample=UnitArray([float(t) for t in ts], tu), system=system)
+    traj = RDTrajectory(data=UnitArray(data0, du), t_sample=UnitArray([float(t) for t in ts0], tu), system=system)
     if cj.get("refused_space_assignment") == "traj":
         refused_space_assignment(_C(), traj.system, cj["kind"], shape)
+    if h:
+        traj = apply_history(traj, cj)
     return traj, ts, system, shape
 
 
@@ -747,9 +926,21 @@ def replay(ctx, rec):
     out.update(impl=vals, units=str(units), data_units=str(traj.data.units), expected=exp)
     if exp == "exception":
         return False, out
+    cross_ok = True
     if mj["q"] == "point" and "s" in q:
         k = q["k"] % N
         exp = [data[k * ns * nc + q["s"] * nc + q["c"]]]
+        # the same (species, sample, cell) through the other accessors and by direct indexing (the property's own cross-check)
+        s_, c_ = q["s"], q["c"]
+        cross = {"point": vals[0]}
+        for name, f in (("state", lambda: float(traj.get_state(s_, k).value[c_])),
+                        ("trajectory", lambda: float(traj.get_trajectory(s_, c_).value[k])),
+                        ("whole", lambda: float(traj.get_state(None, k).value[s_ * nc + c_])),
+                        ("flat", lambda: float(np.asarray(traj.data.value).ravel()[k * ns * nc + s_ * nc + c_]))):
+            st2, r2 = call(f)
+            cross[name] = r2 if st2 == "ok" else "raises " + str(r2)
+        out["same_entry_through_every_accessor"] = cross
+        cross_ok = all(v == exp[0] for v in cross.values())
     ok = isinstance(exp, list) and len(exp) == len(vals) and all(close(v, frac(e), rel=1e-12) for v, e in zip(vals, exp)) \
-        and str(units) == str(traj.data.units)
+        and str(units) == str(traj.data.units) and cross_ok
     return ok, out
